@@ -40,6 +40,7 @@ import (
 	"github.com/dominant-strategies/go-quai/ethdb/pebble"
 	"github.com/dominant-strategies/go-quai/log"
 	"github.com/dominant-strategies/go-quai/params"
+	"google.golang.org/protobuf/proto"
 
 	"verifharness/hlib"
 )
@@ -231,16 +232,17 @@ type node struct {
 	db     ethdb.Database
 	myQi   []*common.Hash
 	closed bool
+	index  bool
 }
 
-func openNode(db ethdb.Database) *node {
+func openNode(db ethdb.Database, index bool) *node {
 	t := time.Now()
 	defer func() { tOpen += time.Since(t) }()
-	z, err := core.VerifNewZone(db, core.VerifZoneOptions{Location: loc, QuaiCoinbase: id.quaiCoinbase, QiCoinbase: id.qiCoinbase, GenesisTime: 1000}, logger)
+	z, err := core.VerifNewZone(db, core.VerifZoneOptions{Location: loc, QuaiCoinbase: id.quaiCoinbase, QiCoinbase: id.qiCoinbase, GenesisTime: 1000, IndexAddressUtxo: index}, logger)
 	if err != nil {
 		panic("VerifNewZone: " + err.Error())
 	}
-	return &node{z: z, db: db}
+	return &node{z: z, db: db, index: index}
 }
 
 var tClose, tOpen, tGen, tSwitch, tScan time.Duration
@@ -263,6 +265,7 @@ type image struct {
 	Canon   []common.Hash // index = number; zero hash = absent
 	Head    common.Hash
 	MemHead common.Hash
+	Au, Al  []kv // address -> outpoints index (canonical form), address -> locked balance (IndexAddressUtxos only)
 }
 
 func scanPrefix(db ethdb.Database, prefix string, klen int) []kv {
@@ -284,7 +287,63 @@ func scan(n *node, maxNum uint64) *image {
 	}
 	im.Head = rawdb.ReadHeadBlockHash(n.db)
 	im.MemHead = n.z.Hc.CurrentHeader().Hash()
+	if n.index {
+		for _, e := range scanPrefix(n.db, "auwh", 24) {
+			im.Au = append(im.Au, kv{e.k, canonOutpoints(e.v)})
+		}
+		for _, e := range scanPrefix(n.db, "al", 22) {
+			if new(big.Int).SetBytes(e.v).Sign() != 0 { // a zero balance and an absent record are the same
+				im.Al = append(im.Al, e)
+			}
+		}
+	}
 	return im
+}
+
+// utxoAddr decodes the owner of a stored TxOut
+func utxoAddr(v []byte) string {
+	p := new(types.ProtoTxOut)
+	if err := proto.Unmarshal(v, p); err != nil {
+		return ""
+	}
+	u := new(types.UtxoEntry)
+	if err := u.ProtoDecode(p); err != nil {
+		return ""
+	}
+	return string(u.Address)
+}
+
+// mixedAddress: the block both restores (spent/trimmed) and removes (created) outpoints of one
+// address when it is rolled back — the shape in which the rollback batch of SetCurrentHeader
+// (no pending tracking) overwrites its first index update with the second.
+func mixedAddress(e *effect) bool {
+	restored := map[string]bool{}
+	for _, x := range append(append([]kv{}, e.spent...), e.trimmed...) {
+		if a := utxoAddr(x.v); a != "" {
+			restored[a] = true
+		}
+	}
+	for _, c := range e.created {
+		if restored[utxoAddr(c.v)] {
+			return true
+		}
+	}
+	return false
+}
+
+// canonOutpoints: the address index stores a list per address; its order depends on history,
+// the SET of outpoints must not.
+func canonOutpoints(v []byte) []byte {
+	p := new(types.ProtoAddressOutPoints)
+	if err := proto.Unmarshal(v, p); err != nil {
+		return append([]byte("undecodable:"), v...)
+	}
+	var items []string
+	for _, o := range p.OutPoints {
+		items = append(items, fmt.Sprintf("%x:%d:%d:%x", o.GetHash().GetValue(), o.GetIndex(), o.GetDenomination(), o.GetLock()))
+	}
+	sort.Strings(items)
+	return []byte(strings.Join(items, ","))
 }
 
 func kvsEqual(a, b []kv) bool {
@@ -663,7 +722,8 @@ type scenario struct {
 	ID       int
 	Seed     uint64
 	Backend  string
-	Kind     string // random | f6 | deep | samebranch
+	Kind     string // random | f6 | deep | double
+	Index    bool   // IndexAddressUtxos
 	blocks   map[common.Hash]*blockInfo
 	maxNum   uint64
 	allowDelegateChange bool
@@ -678,6 +738,7 @@ type caseJSON struct {
 	ScnKind  string `json:"scn_kind"`
 	DelegChg bool   `json:"delegate_change"`
 	NoLockup bool   `json:"no_lockups"`
+	Index    bool   `json:"index_address_utxos"`
 	Backend  string `json:"backend"`
 	Switch   int    `json:"switch"`
 	From     string `json:"from,omitempty"`
@@ -1158,7 +1219,7 @@ func (rn *runner) runScenario1(s *scenario) {
 	defer func() {
 		if e := recover(); e != nil {
 			rn.rep.Fail("harness-or-node-panic", fmt.Sprintf("scenario %d (%s, %s): panic: %v", s.ID, s.Kind, s.Backend, e),
-				caseJSON{Id: rn.nextID, Kind: "reorg", Scenario: s.ID, ScnSeed: s.Seed, ScnKind: s.Kind, Backend: s.Backend, DelegChg: s.allowDelegateChange, NoLockup: s.noLockups})
+				caseJSON{Id: rn.nextID, Kind: "reorg", Scenario: s.ID, ScnSeed: s.Seed, ScnKind: s.Kind, Backend: s.Backend, DelegChg: s.allowDelegateChange, NoLockup: s.noLockups, Index: s.Index})
 			rn.nextID++
 		}
 	}()
@@ -1168,7 +1229,7 @@ func (rn *runner) runScenario1(s *scenario) {
 
 	// ---- base chain on its own node
 	db0, close0 := newBackend("memorydb")
-	n0 := openNode(db0)
+	n0 := openNode(db0, s.Index)
 	gen := n0.z.Genesis
 	s.blocks[gen.Hash()] = &blockInfo{hash: gen.Hash(), inboundSet: true, img: scan(n0, 1), branch: "G"}
 	step := func(n *node, branch string, o *blockOpts) *blockInfo {
@@ -1255,7 +1316,7 @@ func (rn *runner) runScenario1(s *scenario) {
 		} else {
 			restore(dbb, snapAk)
 		}
-		nb := openNode(dbb)
+		nb := openNode(dbb, s.Index)
 		cAt := 0
 		for _, q := range plans {
 			if q.from == "A" {
@@ -1296,7 +1357,7 @@ func (rn *runner) runScenario1(s *scenario) {
 	dbT, closeT := newBackend(s.Backend)
 	defer closeT()
 	restore(dbT, snapF)
-	nt := openNode(dbT)
+	nt := openNode(dbT, s.Index)
 	defer nt.close()
 	for _, name := range []string{"A", "B", "C"} {
 		for _, bi := range branches[name] {
@@ -1340,13 +1401,14 @@ func (rn *runner) runScenario1(s *scenario) {
 	cur := fork
 	visited := map[common.Hash]*image{}
 	f6Seen := false
+	mixedSeen := false
 	for si, tgt := range targets {
 		if tgt.hash == cur.hash {
 			continue
 		}
 		cid := rn.nextID
 		rn.nextID++
-		cj := caseJSON{Id: cid, Kind: "reorg", Scenario: s.ID, ScnSeed: s.Seed, ScnKind: s.Kind, Backend: s.Backend, DelegChg: s.allowDelegateChange, NoLockup: s.noLockups, Switch: si,
+		cj := caseJSON{Id: cid, Kind: "reorg", Scenario: s.ID, ScnSeed: s.Seed, ScnKind: s.Kind, Backend: s.Backend, DelegChg: s.allowDelegateChange, NoLockup: s.noLockups, Index: s.Index, Switch: si,
 			From: fmt.Sprintf("%s#%d", cur.branch, cur.num), To: fmt.Sprintf("%s#%d", tgt.branch, tgt.num)}
 		anc := s.commonAncestor(cur.hash, tgt.hash)
 		olds := s.pathFrom(anc, cur.hash)
@@ -1386,6 +1448,7 @@ func (rn *runner) runScenario1(s *scenario) {
 			ok, bad, _ := wfEffect(s.blocks[olds[i].parent].img, e)
 			wfOld = wfOld && ok && !e.incomplete
 			f6Seen = f6Seen || bad
+			mixedSeen = mixedSeen || mixedAddress(e)
 		}
 		for i, e := range newEff {
 			ok, _, _ := wfEffect(s.blocks[news[i].parent].img, e)
@@ -1397,6 +1460,9 @@ func (rn *runner) runScenario1(s *scenario) {
 		sig := func(component string) string {
 			if f6Seen {
 				return "lockup-undo-record-carries-new-delegate"
+			}
+			if component == "address-index" && mixedSeen {
+				return "address-index-rollback-loses-restored-outpoints"
 			}
 			return "reorg-not-exact/" + component
 		}
@@ -1420,6 +1486,14 @@ func (rn *runner) runScenario1(s *scenario) {
 		}
 		if post.Head != tgt.hash || post.MemHead != tgt.hash {
 			report("head", fmt.Sprintf("head pointers: db %s memory %s want %s", short(post.Head), short(post.MemHead), short(tgt.hash)))
+		}
+		if s.Index {
+			if !kvsEqual(post.Au, want.Au) {
+				report("address-index", "address->outpoints index differs (as sets) from the node that only saw the winning branch: "+kvsDiff(post.Au, want.Au))
+			}
+			if !kvsEqual(post.Al, want.Al) {
+				report("address-lockups", "address->locked balance index differs from the node that only saw the winning branch: "+kvsDiff(post.Al, want.Al))
+			}
 		}
 		// M2: canonical map = ancestry of the target, nothing above it
 		{
@@ -1790,7 +1864,7 @@ func main() {
 			rn.addLockOne(c.AddLock.Seed, c.Id)
 		} else {
 			s := mk(c.Scenario, c.ScnKind, c.Backend, c.ScnSeed)
-			s.allowDelegateChange, s.noLockups = c.DelegChg, c.NoLockup
+			s.allowDelegateChange, s.noLockups, s.Index = c.DelegChg, c.NoLockup, c.Index
 			rn.nextID = 1
 			rn.runScenario(s)
 		}
@@ -1816,6 +1890,9 @@ func main() {
 		}
 		if i%11 == 5 {
 			s.noLockups = true
+		}
+		if i%4 == 1 || os.Getenv("C10_INDEX") != "" {
+			s.Index = true // wallet index (IndexAddressUtxos): monitors only, not in the model
 		}
 		rn.runScenario(s)
 		sid++
